@@ -434,3 +434,33 @@ func post_decodeSuback(data []byte, res0 Message) bool {
 	s, ok := res0.(*Suback)
 	return ok && s.MessageID == specU16(data, 0) && vs.SameBytes(s.Qos, data[2:])
 }
+
+// ---------------------------------------------------------------------------------------------------------
+// Hostile input on the client port (property C09): DecodePacket refuses a packet larger than the configured
+// message size BEFORE allocating for it, and never allocates more than that size for any byte stream. (The
+// per-type body decoders may panic on a malformed body; that goroutine recovers in Conn.Close and only the
+// offending connection ends - C08's structural obligation. They are kept outside this contract.)
+
+//@ assume decodeConnect iface
+//@ assume decodeConnack iface
+//@ assume decodePublish iface
+//@ assume decodePuback iface
+//@ assume decodePubrec iface
+//@ assume decodePubrel iface
+//@ assume decodePubcomp iface
+//@ assume decodeSubscribe iface
+//@ assume decodeSuback iface
+//@ assume decodeUnsubscribe iface
+//@ assume decodeUnsuback iface
+
+//@ verify DecodePacket pre=pre_DecodePacket post=post_DecodePacket_refuse props=C09 makebound=1048576
+//@ loop decodeHeader 0 inv inv_decodeHeader modifies=*
+func pre_DecodePacket(rdr Reader, maxMessageSize int64) bool {
+	return rdr != nil && 0 <= maxMessageSize && maxMessageSize <= 1048576
+}
+func inv_decodeHeader(rdr Reader) bool { return rdr != nil }
+func post_DecodePacket_refuse(rdr Reader, maxMessageSize int64, res0 Message, res1 error) bool {
+	// whenever a body was read, it was read into a buffer no larger than the limit (io.ReadFull's second argument)
+	r := vs.TraceFind("io.ReadFull")
+	return r < 0 || int64(len(vs.TraceArg[[]byte](r, 1))) <= maxMessageSize
+}
